@@ -680,11 +680,12 @@ for _s in SUITES:
             cs = cs_mod()
             rep.encoded(getattr(cs, s).AggregateVerify, cs.BaseG2Ciphersuite._CoreAggregateVerify)
             rep.stub("ideal model (symx.blsmodel)")
-            for n in ((1, 2, 3, 4) if tier == "quick" else (1, 2, 3, 4, 5, 6, 8)):
+            # G2Basic compares the messages pairwise: paths grow like the Bell numbers (n = 8: 4140 partitions), so it stops at 7
+            for n in ((1, 2, 3, 4) if tier == "quick" else ((1, 2, 3, 4, 5, 6, 7) if s == "G2Basic" else (1, 2, 3, 4, 5, 6, 8))):
                 _agg_verify(rep, s, n)
         return f
     obligation("C03", "aggregate_verify_%s" % _s, timeout=1500,
-               bound="1..4 (quick) / 1..6 and 8 (thorough) signers with arbitrary valid keys sk_i in [1, r-1] (repeats allowed), arbitrary messages, EVERY 96-byte candidate aggregate")(_mk3(_s))
+               bound="1..4 (quick) / 1..6 and 8 (thorough; 1..7 for G2Basic, whose distinct-message test multiplies the paths) signers with arbitrary valid keys sk_i in [1, r-1] (repeats allowed), arbitrary messages, EVERY 96-byte candidate aggregate")(_mk3(_s))
 
 
 @obligation("C03", "fast_aggregate_verify", timeout=1500, bound="1..4 (quick) / 1..6 and 8 (thorough) signers, one shared message, every 96-byte candidate")
